@@ -602,6 +602,24 @@ func checkC20(tier string, seed int64) int {
 		}
 		obs["stress_ops"] += 2 * len(got)
 	}
+	// (c) end-to-end: an origin much faster than real time (VOD, everything available at once)
+	nE2E := 120
+	if tier == "thorough" {
+		nE2E = 3000
+	}
+	e2eObs, _, _ := runClientCases("C20", nE2E, 48, func(idx int) ([]string, map[string]int, string, map[string]any) {
+		r := runC10Case(seed, 700000+idx)
+		o := map[string]int{"e2e_cases": 1, "e2e_lookahead_checks": r.obs["lookahead_checks"]}
+		if r.obs["max_lookahead"] > 0 {
+			o[fmt.Sprintf("e2e_max_lookahead_%d", r.obs["max_lookahead"])] = 1
+		}
+		return r.c20viol, o, "", nil
+	}, rep, func(idx int) any {
+		return map[string]any{"property": "C20", "e2e_seed": seed, "e2e_index": 700000 + idx}
+	})
+	for k, v := range e2eObs {
+		obs[k] += v
+	}
 	prefix := ""
 	for _, kv := range strings.Fields(os.Getenv("GORACE")) {
 		if strings.HasPrefix(kv, "log_path=") {
@@ -632,12 +650,12 @@ func checkC20(tier string, seed int64) int {
 			"rule":               fmt.Sprintf("direct drive of the real clientSegmentQueue: every producer script over {push, waitUntilSizeIsBelow(0|1)} of length <= %d x consumer scripts of 0..%d pulls x cancellation allowed or not; the two unlock->wait windows (hooks queue.pull.window / queue.wait.window) and the operation boundaries are the only preemption points, and every choice of which actor advances there (and where the context is cancelled) is enumerated depth-first; each execution's history is checked with porcupine against a FIFO model plus the quiescent wake-up oracle (goroutine state from runtime.Stack); then free-running stress under the race detector. distinct = distinct (scripts, schedule) signatures", maxP, maxC),
 			"samples":            samples,
 			"observed":           obs,
-			"exhaustive":         true,
+			"exhaustive":         false,
 			"known_findings_hit": rep.KnownHits(),
 		},
 		Assumptions: []string{
 			"one producer and one consumer, as in the client",
-			"the enumeration is exhaustive for the stated script bounds only; the end-to-end look-ahead bound is checked by the client monitors",
+			"the enumeration is exhaustive for the stated script bounds only (the number of executions can differ by a few between runs: whether a woken goroutine reaches its next stop before the scheduler polls is timing dependent)",
 		},
 		WallS: rep.Elapsed(), Violations: rep.NewViolations(),
 	}
